@@ -380,9 +380,9 @@ class LeaderNode(Entity):
 
         # Schedule next anti-entropy round
         next_ae = Event(
-            time=self.now.__class__.from_seconds(
-                self.now.to_seconds() + self._anti_entropy_interval
-            ),
+            # Integer clock arithmetic: a float round trip of `now` can truncate
+            # the next round back onto, or before, the current instant.
+            time=self.now + self._anti_entropy_interval,
             event_type="AntiEntropy",
             target=self,
             daemon=True,
